@@ -39,6 +39,9 @@ PROPS = {
             'C18.V.rect_has_valid_bounds': r'^c18_k_rect_set',
             'C18.V.ls_from_line_ref': r'^c18_k_conv_line',
             'C18.V.tri_to_array': r'^c18_k_conv_line',
+            'C18.V.tri_to_lines': r'^c18_k_conv_line',
+            'C18.V.line_new': r'^c18_k_conv_line',
+            'C18.V.rect_to_lines': r'^c18_k_conv_rect',
         },
         'undecided_clauses': [
             'unwinding out of a panicking closure (the invariant is stated for calls that return)',
@@ -73,6 +76,10 @@ PROPS['C02'] = {
         'C02.V.line_intersects_coord': r'^c02_k_line_coord',
         'C02.V.rect_intersects_coord': r'^c02_k_rect_coord',
         'C02.V.rect_intersects_rect': r'^c02_k_rect_rect',
+        'C02.V.rect_contains_coord': r'^c02_k_contains_rect',
+        'C02.V.rect_contains_rect': r'^c02_k_contains_rect',
+        'C02.V.line_contains_coord': r'^c02_k_contains_line_coord',
+        'C02.V.line_position': r'^c02_k_line_coord',
     },
     'trusted': ['assumed contract of the Kernel trait: orient2d returns the exact sign (robust::orient2d for floats; default body verified for integers in C03)',
                 'Vec-returning twin of LineString::lines() (element i = Line{start: s[i], end: s[i+1]})'],
@@ -205,7 +212,7 @@ PROPS['C19'] = {
         ('geo', 'c19.rs', r'^c19_k_(point_line_rect_triangle|triangle_map_main|triangle_map_finding_reflection|min_polygon_counts|min_polygon_map|min_polygon_try_map_error_in_hole|min_polygon_try_map_error_in_shell|min_polygon_try_map_ok)$', 'bounded', 'quick'),
         ('geo', 'c19.rs', r'^c19_k_linestring$', 'bounded', 'thorough'),
     ],
-    'twins': {'C19.V.get_min_max': r'^c19_k_point_line_rect_triangle'},
+    'twins': {'C19.V.get_min_max': r'^c19_k_point_line_rect_triangle', 'C19.V.bounding_rect_merge': r'^c19_k_point_line_rect_triangle'},
     'trusted': ['bounded harnesses use concrete pairwise-distinct coordinates for traversal / mapping code (parametric in the coordinate values) and small concrete container sizes',
                 'Kani default memory-safety / overflow checks are switched off for these harnesses (only the contract assertions are checked)'],
     'undecided_clauses': [
@@ -267,7 +274,7 @@ PROPS['C04'] = {
 PROPS['C05'] = {
     'title': 'Planar area and ring orientation are exact up to rounding',
     'level': 'proof',
-    'verus': [],
+    'verus': ['c05_exact'],
     'kani_extra': ['--no-memory-safety-checks', '--no-overflow-checks', '--no-assertion-reach-checks'],
     'kani': [
         ('geo', 'c05.rs', r'^c05_k_ring_area_open_', 'complete', 'quick'),
